@@ -231,6 +231,38 @@ pub fn run(ctx: &mut Ctx) {
         }
     }
     });
+    // --- texts the parser quotes in its error messages, at every byte length of 1- to 4-byte characters ----
+    if ctx.shard == ctx.nshards.saturating_sub(1) && ctx.begin("error-text", 0) {
+        let max = if ctx.quick() { 140 } else { 700 };
+        for ch in ["q", "\u{e9}", "\u{20ac}", "\u{1f600}"] {
+            for offset in 0..4usize {
+                let mut n = 1usize;
+                while offset + n * ch.len() <= max {
+                    let body = format!("{}{}", "Q".repeat(offset), ch.repeat(n));
+                    n += 1;
+                    ctx.eval("error-text", crate::prng::hash_str(&body), true);
+                    for doc in [
+                        format!("a == 1{body}"),
+                        format!("a == 2021-01-01T00:00:00+01:00 {body}"),
+                        format!("a == \"\\q{body}\""),
+                        format!("a == \"\\u{body}\""),
+                        format!("a == @{body} x"),
+                        format!("a == ^{body}"),
+                        format!("a == `{body}"),
+                        format!("{body} == 1"),
+                        format!("a->{body}"),
+                        format!("a {body} b"),
+                        format!("a == 2021-{body}"),
+                        format!("a == 12:{body}"),
+                        format!("^{body}"),
+                        format!("{body}? @x"),
+                    ] {
+                        let _ = parse_monitored(ctx, doc.as_bytes(), "error-text");
+                    }
+                }
+            }
+        }
+    }
     // --- valid filters: the text, its prefixes, its mutants; evaluation of whatever parses ----------
     let n = ctx.n(3_000, 80_000);
     for i in 0..n {
